@@ -7,7 +7,8 @@ use crate::ws::r2;
 
 pub struct C13;
 
-pub const FAULTS: [&str; 11] = [
+pub const FAULTS: [&str; 12] = [
+    "undefined-field",
     "undefined-class",
     "undefined-multiclass",
     "undefined-identifier",
@@ -70,6 +71,17 @@ fn pick_edit(p: &crate::gen::sem::Program, class: &str, pick: usize) -> Option<E
             let c = uses_of(&[DeclKind::Defvar, DeclKind::ForeachVar, DeclKind::BangVar, DeclKind::TemplateArg, DeclKind::Field, DeclKind::Def, DeclKind::Defset]);
             let o = c.get(pick % c.len().max(1))?;
             Some(ident_edit(o, "undefined_name".into(), "identifier in a value replaced by an undeclared one".into()))
+        }
+        "undefined-field" => {
+            // a field read through `.f` (the character before the identifier is a dot)
+            let c: Vec<&crate::gen::sem::Occ> = p
+                .occs
+                .iter()
+                .filter(|o| matches!(&o.role, Role::Use(d) if p.decls[*d].kind == DeclKind::Field))
+                .filter(|o| o.range.0 > 0 && p.files[o.file].1.as_bytes()[o.range.0 - 1] == b'.')
+                .collect();
+            let o = c.get(pick % c.len().max(1))?;
+            Some(ident_edit(o, "no_such_field".into(), "field name after '.' replaced by an undeclared one".into()))
         }
         "missing-include" => {
             let file = pick % p.files.len();
